@@ -244,6 +244,12 @@ func (c *Ctx) inline(st *State, fr *Frame, instr ssa.Instruction, callee *ssa.Fu
 	}
 	c.inlined[callee.String()] = true
 	nf := c.newFrame(callee, fr)
+	nf.paramObjs = map[string]types.Object{}
+	for _, p := range callee.Params {
+		if p.Object() != nil {
+			nf.paramObjs[p.Name()] = p.Object()
+		}
+	}
 	for i, p := range callee.Params {
 		if i < len(args) {
 			a := args[i]
